@@ -69,7 +69,12 @@ func (r listReflect) Equals(other List) bool {
 }
 func (r listReflect) EqualsUsing(a Allocator, other List) bool {
 	if otherReflectList, ok := other.(*listReflect); ok {
-		return reflect.DeepEqual(r.Value.Interface(), otherReflectList.Value.Interface())
+		// Deeply equal Go values are equal lists; the converse does not hold (1 and 1.0
+		// held in interface{} elements, fields hidden from JSON, typed vs untyped
+		// elements), so a negative answer falls through to the element-wise comparison.
+		if reflect.DeepEqual(r.Value.Interface(), otherReflectList.Value.Interface()) {
+			return true
+		}
 	}
 	return ListEqualsUsing(a, &r, other)
 }
